@@ -6,7 +6,23 @@ THEOREMS = [
     "C11.no_memo_stateless",
     "C11.query_history_independent_counterexample",
     "C11.key_collision_stale",
+    # the engine with the concrete search of C09 inside (RreModel/C11/{Engine,EngineLemmas,Theorems2}.lean)
+    "C11.engine_history_fresh",
+    "C11.engine_history_verdicts",
+    "C11.engine_history_eq_fresh",
+    "C11.engine_history_admissible",
+    "C11.fresh_query_is_C09_query",
+    "C11.engine_refines_cache_model",
+    "C11.engine_key_collision_stale",
+    "C11.engine_eq_fast",
+    "C11.keyDet_without_maxSol",
+    "C11.key_needs_facts",
+    "C11.key_needs_query",
+    "C11.set_config_must_clear",
+    "C11.aggregate_needs_memo_off",
+    "C11.hit_skips_derivation",
 ]
+LEAN_TARGETS = ["RreModel.C11.Theorems", "RreModel.C11.Theorems2"]
 N = {"quick": 1500, "thorough": 10000}
 EXHAUSTIVE = {"quick": False, "thorough": False}
 RULE = ("cases = corpus + N histories on ONE BackwardEngine: 2..6 queries (mostly the same goal again; 1 in 8 through "
@@ -33,35 +49,117 @@ RULE = ("cases = corpus + N histories on ONE BackwardEngine: 2..6 queries (mostl
         "(stats.goals_explored == 0), and the key text (query, max_solutions, canonical facts before; a 128-bit digest of it when "
         "longer than 160 bytes). Oracle: every verdict "
         "equals the fresh engine's (needs no model); tie: the Lean cache model, run on the observed keys with the observed fresh "
-        "verdicts as its abstract `answer`, must predict every (verdict, hit) pair. Non-trivial = the history contains two "
-        "different verdicts.")
+        "verdicts as its abstract `answer`, must predict every (verdict, hit) pair. "
+        "+ N/10 RETE histories (op `R`: from there on every query goes through query_with_rete_engine with ONE IncrementalEngine "
+        "attached for the rest of the history, the fresh engine of the comparison gets a new one; rules conclude the dotted fields "
+        "U.P / U.Q, whose Sets are then also inserted there as logical facts and recorded in the search's proof graph; op `T` "
+        "retracts everything the attached engine holds, between askings; set_config, aggregates, caller-side removals of the "
+        "derived facts in between). ENGINE MODEL (driver, model mode): RreModel/C11/Engine.lean — memo cache keyed (query, "
+        "max_solutions, facts), set_config = new cache, query_aggregate = search with max_solutions usize::MAX and no cache access, "
+        "rejected aggregate = no change, the search C09.queryFast with the code's candidate computation (C09/Candidates.lean) — is run "
+        "over the WHOLE history and predicts for every call the answer (provable / count / Err), whether it was a cache hit, and the "
+        "caller's facts after it, as the SET of admissible histories over the enumeration orders of the candidate HashSets; the "
+        "observation (7th item field = facts after the call) must be a member. The prediction stops at the first op the C09 grammar "
+        "does not have (negated goal, Null, exists(..), extra facts): quick tier 1.2k histories predicted in full, 0.75k up to that "
+        "op, ~5.6k calls of which ~0.8k hits. Non-trivial = the history contains two different verdicts.")
 TRUSTED = [
     "Lean 4.33 kernel; axioms of every property theorem within {propext, Classical.choice, Quot.sound} (audited each run)",
     "hand-written cache model RreModel/C11/Model.lean tied to backward_engine.rs / goal.rs by evaluating it on observed keys (differential testing)",
-    "key injectivity: the fixed key renders (query, max_solutions, facts sorted by name, Debug of each value); Debug is assumed injective on the values used",
+    "hand-written engine model RreModel/C11/Engine.lean (query / set_config / query_aggregate over C09's search model and candidate "
+    "computation) tied to backward_engine.rs by predicting answer, hit and facts-after of every call of generated histories "
+    "(differential testing, set-valued over HashSet orders); engine_refines_cache_model proves it refines the cache model",
+    "key injectivity: the fixed key renders (query, max_solutions, facts sorted by name, Debug of each value); the model keys by these "
+    "components (keyCode); that the TEXT determines them (query text -> atom, Debug injective on the values used) is assumed",
     "harness/src/bin/c11.rs (fresh-engine comparison, deep copy of the facts), Driver/C11.lean glue, check.py",
 ]
 ASSUMPTIONS = [
-    "the search is an abstract function answer : Query -> Facts -> Bool (the fresh engine's verdict; its own model is C09's)",
-    "no RETE engine attached: the proof-graph cache consulted by check_goal_in_facts only exists with Some(engine) and belongs to C17",
+    "the rule set of an engine does not change during a history (KnowledgeBase::add_rule through engine.knowledge_base() + rebuild_index "
+    "is outside the quantifier; the memo key does not contain the rules and rebuild_index does not empty the cache)",
+    "every call of one history that is compared by the list equation engine_history_eq_fresh enumerates its candidate HashSet alike; "
+    "engine_history_admissible / engine_history_fresh drop that (verdict = a fresh verdict for one of the enumerations used)",
+    "RETE engine attached: the search objects and their proof graph are built inside every call (new_with_engine -> new_shared()) and "
+    "dropped at its end, so the engine model has no such state; that the attachment does not change what ONE search hands back is "
+    "checked by the correspondence run only (`R` / `T` histories); the proof graph itself is C17's model",
+    "query_aggregate: count(..) over well-formed patterns and rejected texts; sum/avg/min/max/first/last read solution bindings the C09 "
+    "model does not carry (only their number)",
     "set_config replaces the GoalManager, i.e. clears the cache; query_aggregate changes max_solutions without set_config, which is why max_solutions is part of the key",
 ]
 
 
+def project(impl):
+    """what the engine model predicts of an observation line: answer, hit, facts after of every call"""
+    impl = impl.strip()
+    if impl == "-":
+        return "-"
+    out = []
+    for it in impl.split(";"):
+        f = it.split("/")
+        if len(f) != 7:
+            return None
+        out.append("%s:%s:%s" % (f[2], f[4], f[6]))
+    return ";".join(out)
+
+
 def agree(case, impl, model):
-    return True
+    model = model.strip()
+    if model in ("-", "many-orders"):
+        return True          # outside the modelled class: fresh-engine comparison + cache model (oracle mode) only
+    p = project(impl)
+    if p is None:
+        return False
+    for m in model.split("||"):
+        m = m.strip()
+        if m == p:
+            return True
+        if m.endswith("*"):          # the prediction stops at the first op outside the modelled class: compare the calls before it
+            pre = m[:-1].rstrip(";")
+            if pre == "" or p == pre or p.startswith(pre + ";"):
+                return True
+    return False
 
 
 def classify(case, impl, model, oracle, kind):
     if kind == "oracle":
         return "oracle:" + oracle.replace("fail ", "").split("@")[0]
-    return "diff"
+    p = project(impl)
+    if p is None:
+        return "diff:" + impl.split(":")[0][:12]
+    ms = [m.strip().split(";") for m in model.split("||")]
+    ps = p.split(";")
 
-LEVEL_TEXT = ("Lean 4 theorem (kernel-checked, unbounded: every history of (facts, query) pairs, every search function, every key "
+    def pre_ok(m, k):                 # alternative m agrees with the first k observed calls (`*` = prediction stopped)
+        cut = m.index("*") if "*" in m else len(m)
+        return (cut >= k and m[:k] == ps[:k]) or (cut < k and m[:cut] == ps[:cut])
+
+    # first call on which no admissible history agrees, and what differs there
+    for k in range(len(ps)):
+        if not [m for m in ms if pre_ok(m, k + 1)]:
+            prev = [m for m in ms if pre_ok(m, k) and len(m) > k and m[k] != "*"]
+            what = "shape"
+            if prev:
+                a, b = ps[k].split(":", 2), prev[0][k].split(":", 2)
+                what = "answer" if a[0] != b[0] else "hit" if a[1] != b[1] else "facts-after"
+            return "engine-model:" + what
+    return "engine-model:shape"
+
+LEVEL_TEXT = ("ENGINE WITH THE CONCRETE SEARCH (Theorems2.lean; unbounded: every naming, rule set, configuration, initial facts, history of "
+              "caller-side fact changes / set_config / query / query_aggregate / rejected aggregate): engine_history_eq_fresh — the verdicts of "
+              "one engine (memo cache + C09.query + C09.topCandidates / subCandidates) are call by call those of freshly built engines, "
+              "i.e. of C09.query on that step's rules / facts / configuration (fresh_query_is_C09_query); engine_history_admissible / "
+              "engine_history_fresh — per step (StepFresh): a searching call hands back exactly the fresh engine's verdict AND facts, a hit "
+              "the fresh verdict for an enumeration used earlier and the facts untouched, aggregates and every other step exactly the fresh "
+              "engine's result; invariant EngCacheOK; hypothesis on the key: KeyDet = it determines QUERY and FACTS only "
+              "(keyDet_without_maxSol: max_solutions is redundant since e8cfd71 switches memoisation off inside query_aggregate). One "
+              "kernel-evaluated witness per ingredient on the code's search: key_needs_facts (F-C11), key_needs_query, "
+              "set_config_must_clear, aggregate_needs_memo_off (F-C11b); engine_key_collision_stale (= key_collision_stale through "
+              "engine_refines_cache_model); hit_skips_derivation (a hit hands back the verdict but not the derived facts — outside "
+              "observe_at, mirrored by the model); engine_eq_fast (the driver's executable = the model). CACHE MODEL: Lean 4 theorem (kernel-checked, unbounded: every history of (facts, query) pairs, every search function, every key "
               "function that determines the fresh answer): query_history_independent — the k-th answer of a long-lived engine equals a "
               "fresh engine's answer on the k-th pair — from the cache invariant; counterexample theorem for the pre-fix key (query "
               "string alone) and key_collision_stale: ANY two (query, facts) pairs with different answers and one key give a stale second answer. Tied to the code by comparing every query of generated histories with a freshly built engine inside the "
               "harness and by running the cache model on the observed keys (hit/verdict prediction).")
-LEVEL_NOTE = ("The search is abstract in this model (C09 carries it). Trusted: Lean kernel + {propext, Classical.choice, Quot.sound}; "
+LEVEL_NOTE = ("The search inside the engine model is C09's (tied there and here by differential testing); the rule set is fixed per engine; "
+              "text-level injectivity of the key rendering is assumed; with a RETE engine attached only the absence of surviving state is "
+              "modelled, the effect of the attachment on one search is checked, not proved. In the older cache-model theorems the search is abstract. Trusted: Lean kernel + {propext, Classical.choice, Quot.sound}; "
               "injectivity of the rendered key; harness fresh-engine comparison; RETE-attached proof-graph cache is C17's.")
 DESIGN_REF = "§6 C11"
